@@ -527,4 +527,160 @@ theorem sum_sq_dev_mean {ι : Type} (d : List ι) (f : ι → ℝ) (μ : ℝ) (h
   rw [sum_sq_dev d f μ, sum_sq_dev d f ((d.map f).sum / d.length)]
   field_simp; ring
 
+/-! ### bookkeeping of `Normalizer.fit` (law-free: any carrier, also `Float`) -/
+
+section Fit
+open GSV.Model.Norm
+variable {α : Type}
+
+theorem setAttr_same (s : Attrs α) (n : String) (v : α) : setAttr s n v n = v := by simp [setAttr]
+
+theorem setAttr_other (s : Attrs α) {n m : String} (v : α) (h : m ≠ n) : setAttr s n v m = s m := by
+  simp [setAttr, h]
+
+theorem writeBack_nil (s : Attrs α) (x : List α) : writeBack s [] x = s := by simp [writeBack]
+
+theorem writeBack_nil_right (s : Attrs α) (names : List String) : writeBack s names [] = s := by
+  simp [writeBack]
+
+theorem writeBack_cons (s : Attrs α) (n : String) (ns : List String) (v : α) (vs : List α) :
+    writeBack s (n :: ns) (v :: vs) = writeBack (setAttr s n v) ns vs := by
+  simp [writeBack]
+
+/-- names that are not written keep their value -/
+theorem writeBack_of_not_mem (s : Attrs α) (names : List String) (x : List α) {m : String} (h : m ∉ names) :
+    writeBack s names x m = s m := by
+  induction names generalizing s x with
+  | nil => rw [writeBack_nil]
+  | cons n ns ih =>
+    cases x with
+    | nil => rw [writeBack_nil_right]
+    | cons v vs =>
+      rw [writeBack_cons, ih _ _ (fun hm => h (List.mem_cons_of_mem _ hm))]
+      exact setAttr_other s v (fun e => h (e ▸ List.mem_cons_self))
+
+/-- with pairwise distinct names and a vector of the same length the `i`-th name receives the `i`-th value -/
+theorem writeBack_get (s : Attrs α) (names : List String) (x : List α) (hnd : names.Nodup)
+    (hlen : x.length = names.length) (i : Nat) (hi : i < names.length) :
+    writeBack s names x names[i] = x[i]'(hlen ▸ hi) := by
+  induction names generalizing s x i with
+  | nil => exact absurd hi (Nat.not_lt_zero _)
+  | cons n ns ih =>
+    cases x with
+    | nil => simp at hlen
+    | cons v vs =>
+      rw [writeBack_cons]
+      have hnd' := List.nodup_cons.mp hnd
+      cases i with
+      | zero =>
+        simp only [List.getElem_cons_zero]
+        rw [writeBack_of_not_mem _ _ _ hnd'.1, setAttr_same]
+      | succ j =>
+        simp only [List.getElem_cons_succ]
+        exact ih _ _ hnd'.2 (by simpa using hlen) j (by simpa using hi)
+
+/-- writing the values of `b` at the names makes the object agree with `b` there (duplicates allowed) -/
+theorem writeBack_map (s b : Attrs α) (names : List String) {m : String} (h : m ∈ names) :
+    writeBack s names (names.map b) m = b m := by
+  induction names generalizing s with
+  | nil => exact absurd h List.not_mem_nil
+  | cons n ns ih =>
+    rw [List.map_cons, writeBack_cons]
+    by_cases hm : m ∈ ns
+    · exact ih _ hm
+    · have e : m = n := by
+        rcases List.mem_cons.mp h with e | e
+        · exact e
+        · exact absurd e hm
+      rw [writeBack_of_not_mem _ _ _ hm, e, setAttr_same]
+
+/-- a full-length vector overwrites every name: the result does not depend on the previous values at the names -/
+theorem writeBack_congr (a b : Attrs α) (names : List String) (x : List α) (hlen : names.length ≤ x.length)
+    (h : ∀ m, m ∉ names → a m = b m) : writeBack a names x = writeBack b names x := by
+  induction names generalizing a b x with
+  | nil => rw [writeBack_nil, writeBack_nil]; funext m; exact h m List.not_mem_nil
+  | cons n ns ih =>
+    cases x with
+    | nil => simp at hlen
+    | cons v vs =>
+      rw [writeBack_cons, writeBack_cons]
+      refine ih _ _ _ (by simpa using hlen) (fun m hm => ?_)
+      by_cases e : m = n
+      · rw [e, setAttr_same, setAttr_same]
+      · rw [setAttr_other _ _ e, setAttr_other _ _ e]
+        exact h m (fun hc => (List.mem_cons.mp hc).elim e hm)
+
+theorem afterTrials_of_not_mem (s : Attrs α) (free : List String) (trials : List (List α)) {m : String}
+    (h : m ∉ free) : afterTrials s free trials m = s m := by
+  induction trials generalizing s with
+  | nil => rfl
+  | cons t ts ih =>
+    show afterTrials (writeBack s free t) free ts m = s m
+    rw [ih, writeBack_of_not_mem _ _ _ h]
+
+theorem seenStates_of_not_mem (s : Attrs α) (free : List String) (trials : List (List α)) {m : String}
+    (h : m ∉ free) : ∀ a ∈ seenStates s free trials, a m = s m := by
+  induction trials generalizing s with
+  | nil => intro a ha; exact absurd ha List.not_mem_nil
+  | cons t ts ih =>
+    intro a ha
+    rcases List.mem_cons.mp ha with e | e
+    · rw [e, writeBack_of_not_mem _ _ _ h]
+    · rw [ih _ a e, writeBack_of_not_mem _ _ _ h]
+
+theorem mem_paraNames {all skip : List String} {n : String} : n ∈ paraNames all skip ↔ n ∈ all ∧ n ∉ skip := by
+  simp [paraNames, List.mem_filter]
+
+theorem insertName_perm (n : String) (l : List String) : (insertName n l).Perm (n :: l) := by
+  induction l with
+  | nil => exact List.Perm.refl _
+  | cons m ms ih =>
+    unfold insertName
+    split
+    · exact ((List.Perm.cons m ih).trans (List.Perm.swap n m ms))
+    · exact List.Perm.refl _
+
+/-- the sorted name list is a rearrangement of the dictionary keys -/
+theorem sortNames_perm (l : List String) : (sortNames l).Perm l := by
+  induction l with
+  | nil => exact List.Perm.refl _
+  | cons n ns ih =>
+    show (insertName n (sortNames ns)).Perm (n :: ns)
+    exact (insertName_perm n _).trans (List.Perm.cons n ih)
+
+theorem mem_sortNames {l : List String} {n : String} : n ∈ sortNames l ↔ n ∈ l := (sortNames_perm l).mem_iff
+
+theorem paraNames_nodup {defaults skip : List String} (h : defaults.Nodup) :
+    (paraNames (sortNames defaults) skip).Nodup :=
+  List.Nodup.filter _ ((sortNames_perm defaults).nodup_iff.mpr h)
+
+theorem fit_of_nil [Arith α] (defaults skip : List String) (s : Attrs α) (ub : Option (α × α))
+    (ux : Option (List α)) (run : OptRun α) (h : paraNames (sortNames defaults) skip = []) :
+    fit defaults s skip ub ux run
+      = { attrs := s, ret := [], warned := true, route := 0, bracket := none, x0 := none, seen := [] } := by
+  simp only [fit, h, List.isEmpty_nil, if_true]
+
+theorem fit_of_ne_nil [Arith α] (defaults skip : List String) (s : Attrs α) (ub : Option (α × α))
+    (ux : Option (List α)) (run : OptRun α) (h : paraNames (sortNames defaults) skip ≠ []) :
+    fit defaults s skip ub ux run
+      = { attrs := writeBack (afterTrials s (paraNames (sortNames defaults) skip) run.trials)
+                     (paraNames (sortNames defaults) skip) run.x
+          ret := (sortNames defaults).map fun n =>
+            (n, writeBack (afterTrials s (paraNames (sortNames defaults) skip) run.trials)
+                     (paraNames (sortNames defaults) skip) run.x n)
+          warned := false
+          route := if (paraNames (sortNames defaults) skip).length = 1 then 1 else 2
+          bracket := if (paraNames (sortNames defaults) skip).length = 1
+            then some (ub.getD (-((2:Nat):α), ((2:Nat):α))) else none
+          x0 := if (paraNames (sortNames defaults) skip).length = 1 then none
+            else some (ux.getD ((paraNames (sortNames defaults) skip).map s))
+          seen := seenStates s (paraNames (sortNames defaults) skip) run.trials } := by
+  have he : (paraNames (sortNames defaults) skip).isEmpty = false := by
+    cases hh : paraNames (sortNames defaults) skip with
+    | nil => exact absurd hh h
+    | cons a l => rfl
+  simp only [fit, he, Bool.false_eq_true, if_false]
+
+end Fit
+
 end GSV.Lemmas.Norm
